@@ -243,6 +243,10 @@ func ErrClass(err error) string {
 		return "badpattern"
 	}
 
+	if strings.Contains(err.Error(), "EvalSymlinks: too many links") {
+		return "ELOOP" // filepath.EvalSymlinks reports its own loop error
+	}
+
 	if errors.Is(err, avfs.ErrPatternHasSeparator) || strings.Contains(err.Error(), "pattern contains path separator") {
 		return "patsep"
 	}
